@@ -515,6 +515,9 @@ class Phase(Angle):
         if string.dtype.kind not in "SU":
             raise ValueError("require string input.")
         count, frac = _parse_strings(string)
+        if np.all(count.imag == 0) and np.all(frac.imag == 0):
+            # Real input; a zero part must not be mistaken for an imaginary one.
+            count, frac = count.real, frac.real
         return cls(count, frac)
 
     @property
